@@ -328,7 +328,7 @@ func (eng *Engine) inlinable(f *ssa.Function) bool {
 			}
 		}
 	}
-	return n <= limit && f.Recover == nil
+	return n <= limit && (f.Recover == nil || strings.HasPrefix(f.Pkg.Pkg.Path(), "github.com/apernet/hysteria"))
 }
 
 var inlineDeps = map[string]bool{
